@@ -54,5 +54,13 @@ Proof.
   destruct cs as [|c r]; [reflexivity|]. cbn [TEL.lsat]. now rewrite lsat_conj.
 Qed.
 End Elements.
+Require Import GenPrelude FromTransformers Ctx FutTransform FutTransformProofs.
+(* the same for the transformer model that is compared with transformers.transform on every run (Model/FutTransform.v): the rewriting of a rule never
+   looks inside an atom - for any instantiation f of atom schemata, rewriting the instance of a rule gives the instance of the rewritten rule (same
+   acceptance, same look-ahead depth, instances of the future predicates) *)
+Theorem C06_transformer_commutes_with_instantiation : forall (A B : Type) (f : A -> B) (r : frule A),
+  transform_rule B (map_frule A B f r) = option_map (map_tres A B f) (transform_rule A r).
+Proof. exact transform_rule_natural. Qed.
+Print Assumptions C06_transformer_commutes_with_instantiation.
 Print Assumptions C06_rewrite_commutes_with_instantiation.
 Print Assumptions C06_elements_mean_conjunction_of_implications.
